@@ -13,7 +13,7 @@ template <class T, glm::qualifier Q, int L> static void reg_common() {
 	U1("ceil", "G", 'V', 'V', 0, glm::ceil(x));
 	U1("trunc", "G", 'V', 'V', 0, glm::trunc(x));
 	U1("round", "G", 'V', 'V', 0, glm::round(x));
-	U1("roundEven", "C", 'V', 'V', 0, glm::roundEven(x));
+	U1("roundEven", "G", 'V', 'V', 0, glm::roundEven(x));
 	U1("fract", "G", 'V', 'V', 0, glm::fract(x));
 	// mod = x - y*floor(x/y): when x/y is (nearly) an integer the floor may legitimately flip between an exact and an approximate
 	// (lowp) or differently rounded division; such cases are counted, not compared
